@@ -59,6 +59,11 @@ def run_for(pid, repo):
                     variants.append(('seeded', d, os.path.join(sdir, d, 'patch.diff'), meta['caught_by'][pid]))
     for name in sorted(idx['benign']):
         variants.append(('benign', name, os.path.join(VERIF, 'mutants', name + '.patch'), None))
+    # independently produced behaviour-preserving refactoring patches (DESIGN 8.7); the ones listed in SILENT are part of every self-test
+    sil = os.path.join(VERIF, 'benign_ext', 'SILENT')
+    if os.path.exists(sil):
+        for b in open(sil).read().split():
+            variants.append(('benign', 'benign_ext/' + b, os.path.join(VERIF, 'benign_ext', b, 'patch.diff'), None))
     known = {k['key'] for k in json.load(open(os.path.join(VERIF, 'known_findings.json')))['findings'] if k.get('status') == 'known'}
 
     root = tempfile.mkdtemp(prefix='acbverif-selftest-', dir=os.environ.get('ACB_SCRATCH', tempfile.gettempdir()))
